@@ -65,6 +65,11 @@ type Plan struct {
 	Unsafe bool `json:"unsafe,omitempty"`
 }
 
+// focusOps, when set (-focus a,b,...), are drawn for half of the plan positions: the directed
+// search after a new lock-order inversion was found in the source (operations of the two witness
+// functions are prioritised).
+var focusOps []string
+
 func genPlan(seed int64, round int, callers, opsPer int) Plan {
 	r := rand.New(rand.NewSource(seed*1000003 + int64(round)*7919 + 17))
 	p := Plan{Seed: seed, Round: round, Peers: 3, StartUp: r.Intn(3) != 0, Traffic: r.Intn(8) != 0}
@@ -108,6 +113,14 @@ func genPlan(seed int64, round int, callers, opsPer int) Plan {
 				}
 			}
 			x := r.Intn(100)
+			if len(focusOps) > 0 && r.Intn(2) == 0 {
+				k := focusOps[r.Intn(len(focusOps))]
+				if (k == "set_key" || k == "set_samekey") && p.Respond {
+					k = "get"
+				}
+				ops = append(ops, PlanOp{K: k, P: r.Intn(p.Peers), A: []int{0, 1, 2, 25}[r.Intn(4)]})
+				continue
+			}
 			switch {
 			case x < 14:
 				ops = append(ops, PlanOp{K: "up"})
